@@ -360,6 +360,7 @@ type Stats struct {
 	Incomplete     []string         `json:"incomplete,omitempty"`
 	SelfCheck      int              `json:"determinism_selfchecks"`
 	Diverged       int64            `json:"diverged_executions,omitempty"`
+	Restarts       int64            `json:"restarts_after_warm_up,omitempty"`
 
 	seen     map[[16]byte]struct{}
 	violKeys map[string]int
@@ -381,6 +382,10 @@ type explorer struct {
 	lenient bool
 	// set while reporting a failure of a repeated execution (see sample)
 	secondRun bool
+	// restarts: how often this scenario's exploration was already restarted
+	// because of warmed-up state; restartWanted asks for another one
+	restarts      int
+	restartWanted bool
 	visited   map[string]int // global-state key -> largest remaining budget it was expanded with
 }
 
@@ -610,6 +615,11 @@ func (e *explorer) sample(c *Ctx) {
 		}
 		return
 	}
+	if lc.obs == c.obs && lc.diverged && e.restarts < 2 {
+		// same observations, other choice points: warmed-up state (see Main)
+		e.restartWanted, e.stop = true, true
+		return
+	}
 	if lc.obs != c.obs || lc.diverged {
 		fmt.Fprintf(os.Stderr, "MACHINERY: harness nondeterminism: same choices, different observations in %s choices=%v\n", e.sc.Name, c.choices)
 		os.Exit(3)
@@ -669,6 +679,10 @@ func (e *explorer) explore(prefix []int, prefixCost int) {
 		// of the code and is judged like any other (a failure must reproduce
 		// 5/5); but the tree below it cannot be enumerated, so the scenario is
 		// reported as not exhaustively explored.
+		if len(c.fails) == 0 && e.restarts < 2 {
+			e.restartWanted, e.stop = true, true
+			return
+		}
 		e.st.Diverged++
 		if e.st.Exhaustive {
 			e.st.Exhaustive = false
@@ -896,15 +910,26 @@ func Main(property string, gen func(cfg *Config, emit func(Scenario))) {
 		}
 		st.Scenarios++
 		completed := -1
+		restarts := 0
 		for b := 0; b <= sc.Bound; b++ {
 			if sc.NoIterate && b < sc.Bound {
 				continue
 			}
-			e := &explorer{sc: sc, st: st, cfg: cfg, bound: b, visited: map[string]int{}}
+			e := &explorer{sc: sc, st: st, cfg: cfg, bound: b, visited: map[string]int{}, restarts: restarts}
 			// iterative bounding: level b re-runs the cheaper executions
 			// to find their branching points but only accounts (and
 			// checks) executions of cost exactly b.
 			e.explore(nil, 0)
+			if e.restartWanted {
+				// an execution did not fit the choice points recorded by an
+				// earlier one although nothing failed: the code under test
+				// warmed something up (a cache, a lazily built table).  The
+				// level is explored again from the root, now in the warm state.
+				restarts++
+				st.Restarts++
+				b--
+				continue
+			}
 			if e.stop {
 				st.Exhaustive = false
 				st.Incomplete = append(st.Incomplete, fmt.Sprintf("%s: budget expired inside bound %d (completed %d)", sc.Name, b, completed))
